@@ -244,7 +244,12 @@ class QSim:
                 p["task"] = self.loop.create_task(self._putter(p))
                 self.stats["fault:blocking_put"] += 1
             else:
-                self.q.put_nowait(item)
+                try:
+                    self.q.put_nowait(item)
+                except Exception as e:
+                    # the queue is not full: putting is plain asyncio.Queue behaviour and cannot fail
+                    self.violate("put_raised", f"put_nowait({item!r}) on a queue that is not full raised {type(e).__name__}: {e}")
+                    return
                 self.puts += 1
                 self.ev("put", item)
         elif op == "consumer":
